@@ -441,17 +441,18 @@ def run(tier: str) -> int:
             stages.model_check(chk, "Lifecycle", cs, ["NoLeak", "UpdateIsRefit"], properties=["ParamsStable"], wd=wd,
                                label=f"A:{sharing}-{tunes}-len{maxlen}")
             nsl = 256 if tier == "quick" else 16
-            sl = [chk.seed % nsl, (chk.seed + 7) % nsl] if tier == "quick" else [(chk.seed + 3 * k) % nsl for k in range(4)]
+            # thorough: 2 of 16 slices per configuration (4 of 16 with 11 pairs took more than 50 min on a loaded machine)
+            sl = [chk.seed % nsl, (chk.seed + 7) % nsl] if tier == "quick" else [(chk.seed + 3 * k) % nsl for k in range(2)]
             if tier == "thorough":  # longer histories: random walks of the same actions, every invariant checked at every step
                 stages.model_check(chk, "Lifecycle", dict(cs, MaxLen=8), ["NoLeak", "UpdateIsRefit"], wd=wd,
-                                   label=f"A:{sharing}-{tunes}-len8-sim", simulate="num=3000", depth=10, seed=chk.seed, workers=8)
+                                   label=f"A:{sharing}-{tunes}-len8-sim", simulate="num=1500", depth=10, seed=chk.seed, workers=8)
             cs3 = dict(cs, MaxLen=3)
             got = stages.emit_cases(chk, "Lifecycle", cs3, wd=wd, label=f"B:{sharing}-{tunes}-len3", invariants=("EmitHist",),
                                     nslices=nsl, slices=sl)
             cases += got
             # longer histories: TLC simulation (random walks through the same actions)
             cs6 = dict(cs, MaxLen=6, EmitLen=6)
-            num = 40 if tier == "quick" else 600
+            num = 40 if tier == "quick" else 300
             cases += stages.emit_cases(chk, "Lifecycle", cs6, wd=wd, label=f"B:{sharing}-{tunes}-len6-sim", invariants=("EmitHist", "NoLeak"),
                                        nslices=1, simulate=f"num={num}", depth=8, seed=chk.seed)
         jobs = []
